@@ -60,10 +60,15 @@ void h_range(void) {
     D y = conv(x);
     vp_assert(le(cmin<D>(), y) && le(y, cmax<D>()), "conv.in_range");
 }
-// (3) monotone
+// (3) monotone: x <= y => f(x) <= f(y) for all x,y  <=>  f(x) <= f(succ(x)) for every x below the maximum
+// (chain argument over the finite, totally ordered value set); succ of a non-negative float is the next bit pattern
+#if SRC_INT
+static S succ(S x) { vp_assume(cs::num(x) < cs::hi()); return S((typename std::conditional<(sizeof(S) > 4), long long, long long>::type)(cs::num(x) + 1)); }
+#else
+static S succ(S x) { float f = (float)x; unsigned b; __builtin_memcpy(&b, &f, 4); vp_assume(b < 0x80000000u); b += 1; float g; __builtin_memcpy(&g, &b, 4); vp_assume(g <= 1.0f); return S(g); }
+#endif
 void h_mono(void) {
-    S x = cs::sym(); S y = cs::sym();
-    vp_assume(le(x, y));
+    S x = cs::sym(); S y = succ(x);
     vp_assert(le(conv(x), conv(y)), "conv.monotone");
 }
 #if SRC_INT && DST_INT
